@@ -265,7 +265,12 @@ func (m *monRoll) checkBudget(s *Sim, t *Task, v *SyncView, f *syncFacts, maxU i
 		avail := false
 		st := false
 		for _, p := range f.byNode[node] {
-			if podReady(p) {
+			// an outdated pod that is already being deleted is a replacement in progress: its
+			// node counts as unavailable, Ready or not (otherwise every sync could take
+			// maxUnavailable more nodes down while the previous ones are still terminating);
+			// an up-to-date Terminating pod is judged leniently by its Ready condition
+			outdatedTerminating := terminating(p) && letterOfPod(p) != letterOfTpl(&v.ERS.Spec.Template)
+			if podReady(p) && !outdatedTerminating {
 				avail = true
 			}
 			if stuckPod(p, now) {
